@@ -395,6 +395,9 @@ func NewInArrayExprNode(left, right Node) *InArrayExprNode {
 type InArrayExprNode struct {
 	left  Node
 	right Node
+	// negated is set for NOT IN. The negation is applied to the typed IN expression, before it is wrapped by a set
+	// function, so that anyOf(x) not in [...] is true if any element is not in the list
+	negated bool
 }
 
 func (node *InArrayExprNode) Accept(visitor Visitor) {
@@ -430,6 +433,10 @@ func (node *InArrayExprNode) TypeTransformBool(s SymbolTypes) (BoolNode, error) 
 	typedExpr, err := node.getTypedExpr()
 	if err != nil {
 		return nil, err
+	}
+
+	if node.negated {
+		typedExpr = &NotExprNode{expr: typedExpr}
 	}
 
 	if isSetFunction {
@@ -484,6 +491,8 @@ type BetweenExprNode struct {
 	left  Node
 	lower Node
 	upper Node
+	// negated is set for NOT BETWEEN, see InArrayExprNode.negated
+	negated bool
 }
 
 func (node *BetweenExprNode) Accept(visitor Visitor) {
@@ -520,6 +529,10 @@ func (node *BetweenExprNode) TypeTransformBool(s SymbolTypes) (BoolNode, error) 
 	typedExpr, err := node.getTypedExpr()
 	if err != nil {
 		return nil, err
+	}
+
+	if node.negated {
+		typedExpr = &NotExprNode{expr: typedExpr}
 	}
 
 	if isSetFunction {
